@@ -141,7 +141,7 @@ def parseCodeGroups (ws : List String) : List (List (Nat × String) × List (Op 
     | [] => none
     | l :: ops => some (parseLocalDecls l, ops.map parseOpLoc)
 
-def moduleTags : List String := ["T", "IM", "FN", "TB", "ME", "GL", "EX", "ST", "EL", "DC", "DA", "CO", "NM"]
+def moduleTags : List String := ["T", "IM", "FN", "TB", "ME", "GL", "EX", "ST", "EL", "DC", "DA", "CO", "NM", "RT"]
 
 def parseModule (ws : List String) : ModuleM :=
   let secs := sectionsBy ws moduleTags
@@ -161,6 +161,9 @@ def parseModule (ws : List String) : ModuleM :=
     dataCount := (get "DC").head?.bind String.toNat?,
     datas := (get "DA").filterMap parseData,
     code := parseCodeGroups (get "CO"),
+    roots := (get "RT").filterMap fun s => match s.splitOn ":" with
+      | [k, i] => i.toNat?.map fun x => (k, x)
+      | _ => none,
     names := if has "NM" then
         let imps := (get "IM").filterMap parseImport
         let cnt := fun (k : String) => (imps.filter fun i => match i.2.2, k with
